@@ -62,6 +62,8 @@ impl Primitive {
         match self {
             Primitive::Null => write!(out, "null")?,
             Primitive::Integer(i) => write!(out, "{}", i)?,
+            // keep a fractional part so that the token is read back as a real number
+            Primitive::Number(n) if n.fract() == 0.0 => write!(out, "{}.0", n)?,
             Primitive::Number(n) => write!(out, "{}", n)?,
             Primitive::Boolean(b) => write!(out, "{}", b)?,
             Primitive::String(ref s) => s.serialize(out)?,
